@@ -37,6 +37,8 @@ SPECS = [
     dict(name="c11f", grid_n=4, n_mazes=3, ctor="gen_prim", ctor_kwargs={}, filters=[], seed=42),
     # 100 mazes: the library switches to its compact format (maze arrays as separate binary members of the archive)
     dict(name="c11g", grid_n=3, n_mazes=100, ctor="gen_dfs", ctor_kwargs={}, filters=[], seed=42),
+    # ... and a FILTERED request that keeps at least 100 mazes: its cache file records the requested filter plus the automatic metadata collection
+    dict(name="c11h", grid_n=3, n_mazes=110, ctor="gen_dfs", ctor_kwargs={}, filters=[["path_length", [], {"min_length": 2}]], seed=42),
 ]
 
 
@@ -533,7 +535,7 @@ def run(tier, seed):
     tmp = tempfile.mkdtemp(prefix="mzverif-C11-", dir="/var/tmp")
     r_damaged = BoundedResult(
         "C11.damaged-cache-file",
-        rule=f"{len(SPECS)} small configurations (5 generators, grid 3..4, 3..5 mazes, with and without filters, plus one 100-maze configuration stored in the compact array format); cache file missing, empty, truncated at "
+        rule=f"{len(SPECS)} small configurations (5 generators, grid 3..4, 3..5 mazes, with and without filters, plus a 100-maze configuration and a filtered 110-maze configuration stored in the compact array format); cache file missing, empty, truncated at "
         + ("64 evenly spaced offsets" if tier == "quick" else "every byte offset (first configuration) / every 4th byte (others)")
         + ", single bytes XOR 0xFF at "
         + ("32 seeded positions + the archive's header fields" if tier == "quick" else "256 seeded positions + every byte of the archive's headers, central directory and end record")
